@@ -146,7 +146,17 @@ class TS:
         return r
 
     def length(self):
-        raise Unsupported("len() of a terminal string")
+        n = 0
+        for it in self.items:
+            if isinstance(it, str):
+                n = n + len(it)
+            elif isinstance(it, Text):
+                n = n + it.n
+            elif isinstance(it, Cond) :
+                n = n + If(it.c, it.ts.length(), 0)
+            else:
+                raise Unsupported(f"len() of a terminal string containing {it!r}")
+        return n
 
     def slice(self, lo, hi):
         raise Unsupported("slice of a terminal string")
